@@ -23,6 +23,8 @@ def plan_structures(tier, seed, nshards):
     dims = (2,) if tier != "thorough" else (1, 2, 3)
     for i, c in enumerate(flowgen.flow_cases(dims=dims)):
         items.append({"kind": "flow", "case": c, "bseed": 3000 + i, "origin": "flow"})
+    for i, c in enumerate(flowgen.corner_cases()):
+        items.append({"kind": "flow", "case": c, "bseed": 3500 + i, "origin": "flow-corner"})
     nrand = 64 if tier != "thorough" else 900
     rng = np.random.default_rng([seed, 101])
     gen = S.Gen(rng)
@@ -88,12 +90,14 @@ def flow_meta(c):
     dim = c["dim"]
     crit = {}
     if c.get("transformer") == "rqs":
-        crit["spline_end"] = [-3.0, 3.0]
+        iv = c.get("interval", 3)
+        crit["spline_end"] = [float(v) for v in (iv if isinstance(iv, (list, tuple)) else (-iv, iv))]
     if c["factory"] == "triangular_spline_flow":
+        mv = float(c.get("tanh_max_val", 3.0))
         crit["spline_end"] = [-1.0, 1.0]
-        crit["leaky_switch_x"] = [3.0, -3.0]
-        crit["leaky_switch_y"] = [float(np.tanh(3.0)), -float(np.tanh(3.0))]
-        crit["leaky_to_spline_end"] = _leaky_preimages_of_one(3.0)
+        crit["leaky_switch_x"] = [mv, -mv]
+        crit["leaky_switch_y"] = [float(np.tanh(mv)), -float(np.tanh(mv))]
+        crit["leaky_to_spline_end"] = _leaky_preimages_of_one(mv)
     if c["factory"] == "block_neural_autoregressive_flow":
         crit["leaky_switch_x"] = [3.0, -3.0]
     z = np.zeros((dim,), dtype=int)
@@ -214,6 +218,44 @@ def run_shard(shard, prop):
     return rec.result()
 
 
+def planar_min_wtu(b, conds, n, cshape):
+    """Smallest raw w.u over the planar layers of `b`, per evaluation point (conditional layers: per condition row).  The
+    constraint w.u_hat > -1 is not representable once w.u is below about -36 (float64) / -15 (float32): 1+softplus(w.u)
+    rounds to 1 and the computed layer is singular (DESIGN 4/C11), so such points are not judged.  Returns None when a planar
+    layer's condition cannot be identified with the outer one."""
+    import equinox as eqx
+    import jax
+    import jax.numpy as jnp
+    import flowjax.bijections as B
+
+    nodes = [m for m in jax.tree_util.tree_leaves(b, is_leaf=lambda m: isinstance(m, B.Planar)) if isinstance(m, B.Planar)]
+    out = np.full(n, np.inf)
+    for node in nodes:
+        def wtu(pl, c):
+            up = pl.get_planar(c)
+            return up._act_scale @ up.weight
+
+        if node.cond_shape is None:
+            extra = node.params.ndim - 1
+        else:
+            if cshape is None or tuple(node.cond_shape) != tuple(cshape):
+                return None
+            first = [l for l in jax.tree_util.tree_leaves(node.conditioner) if eqx.is_array(l) and l.ndim >= 2]
+            extra = first[0].ndim - 2
+        f = wtu
+        for _ in range(extra):
+            f = eqx.filter_vmap(f, in_axes=(eqx.if_array(0), None))
+        try:
+            if node.cond_shape is None:
+                v = np.broadcast_to(np.min(np.asarray(f(node, None), dtype=np.float64)), (n,))
+            else:
+                v = np.asarray(jax.vmap(lambda c: f(node, c))(jnp.asarray(conds)), dtype=np.float64).reshape(n, -1).min(1)
+        except Exception:  # noqa: BLE001
+            return None
+        out = np.fmin(out, np.where(np.isfinite(v), v, -np.inf))
+    return out
+
+
 def _one_structure(rec, prop, it, meta, b, bundle, mode, rng, T, fdt):
     import jax.numpy as jnp
 
@@ -305,6 +347,12 @@ def _one_structure(rec, prop, it, meta, b, bundle, mode, rng, T, fdt):
                                                f"domain point x={x[i].tolist()}", it, mode, det(i))
     ok = fin_y & np.isfinite(nJ) & np.isfinite(nJi)
     rec.count("singular_or_nonfinite_jacobian_gated", (fin_y & ~ok).sum())
+    wtu_lim = -30.0 if T.x64 else -12.0
+    if meta["planar"]:
+        pw = planar_min_wtu(b, cs, N, cshape)
+        if pw is not None:
+            rec.count("planar_points_gated_constraint_unrepresentable", int((ok & (pw < wtu_lim)).sum()))
+            ok = ok & (pw >= wtu_lim)
 
     if prop == "C01":
         # (1) point of *_and_log_det == plain point
@@ -435,6 +483,11 @@ def _one_structure(rec, prop, it, meta, b, bundle, mode, rng, T, fdt):
         Ji2 = Jg2
     nxp, nyc = BB.absmax(xp), BB.absmax(yc)
     ok2 = fin & np.isfinite(nJ2) & np.isfinite(nJi2)
+    if meta["planar"]:
+        pw2 = planar_min_wtu(b, cs2, M, cshape)
+        if pw2 is not None:
+            rec.count("planar_points_gated_constraint_unrepresentable", int((ok2 & (pw2 < wtu_lim)).sum()))
+            ok2 = ok2 & (pw2 >= wtu_lim)
     amp2 = None
     if meta["inv_numeric"] or meta["fwd_numeric"]:
         sk = BB.skeel(np.nan_to_num(J2), np.nan_to_num(Ji2))
